@@ -545,6 +545,22 @@ theorem ref_cmd (fuel : Nat) (ih : Ref fuel) :
       simp only [applyResult_stack']
       rw [applyErrexit_eq _ st0]
       exact relS_mk ⟨st0, rfl⟩
+  | asyncWait body =>
+    simp only [execCmd, specCmd]
+    have h1 := ih.list (s.push .subshell) { s with stack := st0 } body ⟨st0, rfl⟩
+    simp only [push_stack, ctxOf_subshell] at h1
+    obtain ⟨c1, r, st1, hx, hy⟩ := relS_cases h1
+    rw [hx, hy]
+    cases r with
+    | outOfFuel => exact relS_mk ⟨st0, rfl⟩
+    | continue_ =>
+      simp only [St.applyResult]
+      rw [applyErrexit_eq _ st0]
+      exact relS_mk ⟨st0, rfl⟩
+    | break_ d =>
+      simp only [applyResult_stack']
+      rw [applyErrexit_eq _ st0]
+      exact relS_mk ⟨st0, rfl⟩
   | ifc cond body elifs els =>
     simp only [execCmd, specCmd]
     have b1 := (bal fuel).list (s.push .condition) cond
